@@ -253,7 +253,7 @@ impl<'a> Gen<'a> {
         let k = if depth >= 3 { self.rng.below(7) } else { self.rng.below(10) };
         match k {
             0 | 1 => {
-                let s = *self.rng.pick(&["v", "a b", "x&y<z>", " lead", "trail ", "l1\nl2", "", "\u{e9}\u{1d538}", "\"q\"'"]);
+                let s = *self.rng.pick(&["v", "a b", "x&y<z>", " lead", "trail ", "l1\nl2", "", "\u{e9}\u{1d538}", "\"q\"'", "a\u{7f}b", "\u{85}nel", "end\u{9f}", "\u{80}"]);
                 if s.is_empty() && self.rng.chance(1, 2) {
                     em("string", vec![])
                 } else {
@@ -290,7 +290,7 @@ impl<'a> Gen<'a> {
         }
     }
     fn dict(&mut self, depth: u32, extra: Vec<Node>) -> Node {
-        let mut keys = vec!["k1", "k2", "com.x", "a key", "\u{e9}", "<&>"];
+        let mut keys = vec!["k1", "k2", "com.x", "a key", "\u{e9}", "<&>", "k\u{7f}", "\u{85}k\u{9f}"];
         self.shuffle(&mut keys);
         let n = self.rng.below(3) as usize;
         let mut k = Vec::new();
@@ -328,7 +328,7 @@ impl<'a> Gen<'a> {
         el("lib", vec![], vec![d])
     }
     fn note(&mut self) -> Node {
-        let t = *self.rng.pick(&[" hi ", "a<b & c", "", "line1\n  line2", "x", "\u{e9}"]);
+        let t = *self.rng.pick(&[" hi ", "a<b & c", "", "line1\n  line2", "x", "\u{e9}", "a\u{7f}b", "\u{85}start", "end\u{9f}", "\u{80}\u{85}"]);
         el("note", vec![], if t.is_empty() { vec![] } else { vec![Node::Text(t.to_string())] })
     }
     /// a legal document: (nodes before the root, root, nodes after)
@@ -1430,6 +1430,121 @@ fn inject(doc: &mut Vec<Node>, g: &mut Gen, which: u64) -> Option<Label> {
     }
 }
 
+/// a legal document of a chosen size: [n_ids] objects with identifiers (format 2), [n_plain]
+/// without, [n_uni] code points, [n_keys] lib keys
+fn big_doc(rng: &mut Rng, ver: u32, n_ids: usize, n_plain: usize, n_uni: usize, n_keys: usize) -> Vec<Node> {
+    let mut pts: Vec<Node> = Vec::new();
+    let mut contour_ids: Vec<Option<String>> = Vec::new();
+    let mut comps: Vec<Node> = Vec::new();
+    let mut anchors: Vec<Node> = Vec::new();
+    let mut guides: Vec<Node> = Vec::new();
+    let mut ids: Vec<String> = Vec::new();
+    let n_ids = if ver == 2 { n_ids } else { 0 };
+    for j in 0..(n_ids + n_plain) {
+        let id = if j < n_ids {
+            let s = format!("i{}", j);
+            ids.push(s.clone());
+            Some(s)
+        } else {
+            None
+        };
+        let kinds = if ver == 2 { 5 } else { 3 };
+        let mut a: Vec<(String, String)> = Vec::new();
+        match rng.below(kinds) {
+            0 => {
+                a.push(at("x", &format!("{}", j)));
+                a.push(at("y", "1"));
+                a.push(at("type", "line"));
+                if let Some(i) = &id {
+                    a.push(at("identifier", i));
+                }
+                pts.push(em("point", a));
+            }
+            1 => contour_ids.push(id),
+            2 => {
+                a.push(at("base", "b"));
+                if let Some(i) = &id {
+                    a.push(at("identifier", i));
+                }
+                comps.push(em("component", a));
+            }
+            3 => {
+                a.push(at("x", "1"));
+                a.push(at("y", &format!("{}", j)));
+                if let Some(i) = &id {
+                    a.push(at("identifier", i));
+                }
+                anchors.push(em("anchor", a));
+            }
+            _ => {
+                a.push(at("x", &format!("{}", j)));
+                if let Some(i) = &id {
+                    a.push(at("identifier", i));
+                }
+                guides.push(em("guideline", a));
+            }
+        }
+    }
+    // the points go into the contours, up to 7 each; every contour gets at least one point
+    let per = 7;
+    let need = (pts.len() + per - 1) / per;
+    while contour_ids.len() < need {
+        contour_ids.push(None);
+    }
+    let mut contours: Vec<Node> = Vec::new();
+    let nc = contour_ids.len();
+    let mut it = pts.into_iter();
+    for (ci, cid) in contour_ids.into_iter().enumerate() {
+        let mut k: Vec<Node> = Vec::new();
+        let take = if ci + 1 == nc { usize::MAX } else { per };
+        for _ in 0..take {
+            match it.next() {
+                Some(p) => k.push(p),
+                None => break,
+            }
+        }
+        if k.is_empty() {
+            k.push(em("point", vec![at("x", "0"), at("y", "0"), at("type", "line")]));
+        }
+        let a = cid.map(|i| vec![at("identifier", &i)]).unwrap_or_default();
+        contours.push(el("contour", a, k));
+    }
+    let mut kids: Vec<Node> = Vec::new();
+    for u in 0..n_uni {
+        kids.push(em("unicode", vec![at("hex", &format!("{:04X}", 0x41 + u))]));
+    }
+    kids.push(em("advance", vec![at("width", "500")]));
+    let mut ok = contours;
+    ok.extend(comps);
+    if !ok.is_empty() {
+        kids.push(el("outline", vec![], ok));
+    }
+    kids.extend(anchors);
+    kids.extend(guides);
+    if n_keys > 0 || !ids.is_empty() {
+        let mut d: Vec<Node> = Vec::new();
+        for k in 0..n_keys {
+            d.push(text_el("key", &format!("key{}", (k * 7919) % 100_003)));
+            d.push(text_el("string", "v"));
+        }
+        let mut inner: Vec<Node> = Vec::new();
+        for (j, i) in ids.iter().enumerate() {
+            if j % 3 == 0 {
+                inner.push(text_el("key", i));
+                inner.push(el("dict", vec![], vec![text_el("key", "n"), text_el("integer", &format!("{}", j))]));
+            }
+        }
+        if !inner.is_empty() {
+            d.push(text_el("key", "public.objectLibs"));
+            d.push(el("dict", vec![], inner));
+        }
+        if !d.is_empty() {
+            kids.push(el("lib", vec![], vec![el("dict", vec![], d)]));
+        }
+    }
+    vec![Node::Decl, el("glyph", vec![at("name", "big"), at("format", if ver == 2 { "2" } else { "1" })], kids)]
+}
+
 fn node_ref<'a>(doc: &'a [Node], path: &[usize]) -> &'a Node {
     let mut n = &doc[path[0]];
     for i in &path[1..] {
@@ -1488,6 +1603,11 @@ fn node_of_json(v: &serde_json::Value) -> Node {
 }
 
 fn emit(out: &mut String, id: i64, ver: u32, label: &Label, doc: &[Node], xml: &str, corpus: &str) {
+    emit_ex(out, id, ver, label, doc, xml, corpus, false)
+}
+/// [nomodel]: the document is too large for the Coq evaluation; the implementation-side oracle only
+#[allow(clippy::too_many_arguments)]
+fn emit_ex(out: &mut String, id: i64, ver: u32, label: &Label, doc: &[Node], xml: &str, corpus: &str, nomodel: bool) {
     let (tm, short, parsed) = parse_outcome(xml.as_bytes());
     let rules = parsed.as_ref().and_then(|g| returned_glyph_breaks_rules(g, ver)).unwrap_or_default();
     let (c14, c16, c17) = (f14(doc), f16(doc), f17(doc));
@@ -1496,7 +1616,7 @@ fn emit(out: &mut String, id: i64, ver: u32, label: &Label, doc: &[Node], xml: &
     let _ = std::fmt::Write::write_fmt(
         out,
         format_args!(
-            "{{\"id\":{},\"ver\":{},\"inj\":{},\"legal\":{},\"class\":{},\"f14\":{},\"f16\":{},\"f17\":{},\"rules\":{},\"impl\":{},\"case\":{},\"exp\":{},\"xml\":{},\"corpus\":{}}}\n",
+            "{{\"id\":{},\"ver\":{},\"inj\":{},\"legal\":{},\"class\":{},\"f14\":{},\"f16\":{},\"f17\":{},\"rules\":{},\"impl\":{},\"case\":{},\"exp\":{},\"xml\":{},\"corpus\":{},\"nomodel\":{}}}\n",
             id,
             ver,
             json_str(&label.inj),
@@ -1507,10 +1627,11 @@ fn emit(out: &mut String, id: i64, ver: u32, label: &Label, doc: &[Node], xml: &
             c17,
             json_str(&rules),
             json_str(&short),
-            json_str(&Xt::L(vec![xt_doc(doc), xt_pf_table(&tbl)]).packed()),
-            json_str(&tm.packed()),
+            json_str(&if nomodel { String::from("[]") } else { Xt::L(vec![xt_doc(doc), xt_pf_table(&tbl)]).packed() }),
+            json_str(&if nomodel { String::from("[]") } else { tm.packed() }),
             json_str(xml),
-            json_str(corpus)
+            json_str(corpus),
+            nomodel
         ),
     );
 }
@@ -1557,6 +1678,36 @@ pub fn main(a: &Args) {
             }
         }
         write_file(&a.out.join("cases_corpus.jsonl"), &out);
+    }
+    // ---- sizes: every identifier count 0..70, some large ones; many objects without identifiers,
+    // many code points, many lib keys (thresholds in any per-glyph collection)
+    {
+        let mut out = String::new();
+        let mut specs: Vec<(u32, usize, usize, usize, usize)> = Vec::new();
+        for k in 0..=70usize {
+            specs.push((2, k, (k * 3) % 5, k % 3, k % 4));
+        }
+        for k in [100usize, 150, 300, 1000] {
+            specs.push((2, k, 3, 1, 2));
+        }
+        for k in [41usize, 100, 1000] {
+            specs.push((1, 0, k, 1, 0));
+            specs.push((2, 0, k, 1, 0));
+        }
+        for k in [41usize, 300] {
+            specs.push((2, 2, 2, k, 1));
+        }
+        for k in [41usize, 300, 1000] {
+            specs.push((2, 1, 2, 1, k));
+        }
+        let mut r2 = rng.fork();
+        for (j, (ver, n_ids, n_plain, n_uni, n_keys)) in specs.into_iter().enumerate() {
+            let doc = big_doc(&mut r2, ver, n_ids, n_plain, n_uni, n_keys);
+            let label = Label { inj: format!("size: {} identifiers, {} objects without, {} code points, {} lib keys", n_ids, n_plain, n_uni, n_keys), legal: true, class: "" };
+            let xml = render(&doc, &mut r2, j % 2 == 1);
+            emit_ex(&mut out, -(10_000 + j as i64), ver, &label, &doc, &xml, "", n_ids + n_plain + n_uni + n_keys > 160);
+        }
+        write_file(&a.out.join("cases_sizes.jsonl"), &out);
     }
     let n = if a.thorough() { 100_000 } else { 16_000 };
     let mut out = String::new();
